@@ -299,7 +299,7 @@ func main() {
 		}
 		r := &run{}
 		exp := expectOf(scripts[c.Script])
-		st := vsched.Explore(vsched.Config{Name: c.String(), Shard: *vrt.Shard, NShards: *vrt.NShards, Deadline: vrt.Deadline(),
+		st := vsched.Explore(vsched.Config{Name: c.String(), Shard: *vrt.Shard, NShards: *vrt.NShards, SplitLvl: 4, Deadline: vrt.Deadline(),
 			StatesOut: fmt.Sprintf("states_%s_%d.bin", c.String(), *vrt.Shard),
 			Body: body(c, r), Check: check(c, r, exp, outcomes)})
 		res.Evaluations += st.Executions
@@ -328,7 +328,7 @@ func main() {
 			res.Sample(map[string]any{"config": c.String(), "schedule": t})
 		}
 	}
-	res.DistinctNontrivial = int64(len(outcomes))
+	res.SetDistinctKeys(outcomes)
 	res.Info["configs"] = cfgInfo
 	res.Finish()
 }
